@@ -65,7 +65,7 @@ func NewC05(tier string) *C05 {
 	c.Items = []string{"empty", "send1", "send2", "send65", "send70", "sendM70", "reqbatch", "cancel1",
 		"dep_ok", "dep_negfee", "dep_huge", "dep_huge_dec6", "dep_huge_dec24", "dep_zero", "dep_unknown_token", "dep_unknown_chain", "dep_to_hub_short_recv", "dep_negfee_hub",
 		"exec_first", "exec_first_hugefee", "exec_unknown", "valset_event", "logic_event", "prices", "prices_partial", "holders", "observe_far"}
-	c.Pairs = [][2]string{{"send2", "send70"}, {"send1", "send65"}, {"dep_ok", "send70"}, {"observe_far", "send2"}, {"prices", "exec_first"}, {"reqbatch", "send70"}}
+	c.Pairs = [][2]string{{"send2", "send70"}, {"send1", "send65"}, {"dep_ok", "send70"}, {"observe_far", "send2"}, {"prices", "exec_first"}, {"reqbatch", "send70"}, {"send70", "reqbatch"}}
 	if tier == "thorough" {
 		c.Items = append(c.Items, "send66", "send101", "send1100", "cancel2")
 		c.Pairs = append(c.Pairs, [2]string{"send2", "send1100"}, [2]string{"send101", "reqbatch"}, [2]string{"send2", "send66"})
@@ -96,10 +96,34 @@ func (c *C05) NewWorker() engine.Worker {
 	return &c05Worker{in: in}
 }
 
+func blk(dt int64, items ...string) engine.Op { return engine.Op{Kind: "Block", S: items, I: []int64{dt}} }
+
+// seed paths: genesis; two old high-fee transfers waiting in the pool at an odd height;
+// a batch of 70 whose timeout has just been observed (it returns to the pool in the next BeginBlocker)
+func (c *C05) seedPaths() [][]engine.Op {
+	return [][]engine.Op{
+		{},
+		{blk(5, "empty"), blk(5, "send2")},
+		{blk(5, "dep_ok"), blk(5, "send70", "reqbatch"), blk(5, "observe_far")},
+		{blk(5, "prices"), blk(5, "empty"), blk(5, "empty"), blk(5, "empty"), blk(5, "send2", "reqbatch")},
+	}
+}
+
 func (c *C05) Seeds(w engine.Worker) []engine.State {
-	in := w.(*c05Worker).in
-	in.InitGenesis(c.genesis())
-	return []engine.State{&c05State{Snap: in.Snapshot(), Ev: map[string]uint64{}}}
+	var out []engine.State
+	for i := range c.seedPaths() {
+		s, steps := c.Replay(w, i, nil)
+		for _, st := range steps {
+			if len(st.Violations) > 0 {
+				// a seed path that already violates: report it through the search (state = boundary before)
+				continue
+			}
+		}
+		if s != nil {
+			out = append(out, s)
+		}
+	}
+	return out
 }
 
 func (c *C05) Ops(s engine.State) []engine.Op {
@@ -136,6 +160,13 @@ func (c *C05) Replay(w engine.Worker, seed int, ops []engine.Op) (engine.State, 
 	in.InitGenesis(c.genesis())
 	ns := &c05State{Ev: map[string]uint64{}}
 	var steps []engine.Step
+	for _, op := range c.seedPaths()[seed] {
+		var st engine.Step
+		c.block(in, ns, op, &st)
+		if len(st.Violations) > 0 {
+			return nil, []engine.Step{st}
+		}
+	}
 	for _, op := range ops {
 		var st engine.Step
 		c.block(in, ns, op, &st)
@@ -424,9 +455,9 @@ func (c *C05) ClassifyStuck(op engine.Op, a, b string, gid int64) []engine.Viola
 func init() {
 	Register("C05", func(tier string) *Runner {
 		mk := func(tier string) (*C05, engine.Config) {
-			cfg := engine.Config{MaxDepth: 3, Deadline: 75 * time.Second, ReplayLeaf: 20, Horizon: 8 * time.Second, Confirm: 4 * time.Second}
+			cfg := engine.Config{MaxDepth: 2, Deadline: 75 * time.Second, ReplayLeaf: 20, Horizon: 8 * time.Second, Confirm: 4 * time.Second}
 			if tier == "thorough" {
-				cfg = engine.Config{MaxDepth: 4, Deadline: 20 * time.Minute, ReplayLeaf: 100, Horizon: 30 * time.Second, Confirm: 10 * time.Second}
+				cfg = engine.Config{MaxDepth: 3, Deadline: 25 * time.Minute, ReplayLeaf: 100, Horizon: 30 * time.Second, Confirm: 10 * time.Second}
 			}
 			return NewC05(tier), cfg
 		}
